@@ -446,6 +446,17 @@ fn getter_canon(sys: &Sys, gs: &[Getter]) -> Option<(Vec<Vec<f64>>, Vec<f64>)> {
             }
         }
     }
+    // getters that are exactly zero by cancellation of O(1/N) terms (dln_phi_dnj and the
+    // thermodynamic factor of a pure fluid) can come out as exactly 0 in all five evaluations:
+    // the measured scale is then 0 although the terms carry round-off of ~1e-16 / N
+    for (k, g) in gs.iter().enumerate() {
+        let term = match g.0 {
+            "dln_phi_dnj" => 1.0 / sys.ss.ntot,
+            "thermodynamic_factor" => 1.0,
+            _ => 0.0,
+        };
+        noise[k] = noise[k].max(1e-15 * term);
+    }
     Some((canon, noise))
 }
 
